@@ -72,6 +72,8 @@ fn run_scenario<T: HS + scen_stats::NativeBand>(scenario: &str, cfg: &Cfg, out: 
         "relw_stats" => scen_stats::relw_stats::<T>(cfg, out),
         "routing" => scen_routing::run::<T>(cfg, out),
         "symfit" => scen_fit::run::<T>(cfg, out),
+        "relfit" => scen_fit::relfit::<T>(cfg, out),
+        "symfit2" => scen_fit::run2::<T>(cfg, out),
         _ => panic!("unknown scenario {scenario}"),
     }
 }
@@ -133,9 +135,9 @@ fn main() {
                 out.facts.push(("UNSUPPORTED".to_string(), false, unsupported));
             }
             stub::hook_obligations_from_log(&mut out);
-            let (garbage, concretised) = verif_sym::with_arena(|a| (a.garbage_reads, a.concretised));
+            let (garbage, concretised, undefined) = verif_sym::with_arena(|a| (a.garbage_reads, a.concretised, a.undefined_decisions));
             format!(
-                "{{\"mode\":\"sym\",\"scenario\":{},\"garbage_reads\":{},\"concretised\":{},\"vars\":{},\"trace\":{},\"out\":{},\"nodes\":{}}}",
+                "{{\"mode\":\"sym\",\"scenario\":{},\"undefined_decisions\":{undefined},\"garbage_reads\":{},\"concretised\":{},\"vars\":{},\"trace\":{},\"out\":{},\"nodes\":{}}}",
                 verif_sym::json_str(scenario),
                 garbage,
                 concretised,
@@ -159,6 +161,7 @@ fn main() {
                 "faultfit" => scen_native::faultfit(&cfg, &mut out),
                 "faultsweep" => scen_native::faultsweep(&cfg, &mut out),
                 "shapes" => scen_native::shapes(&cfg, &mut out),
+                "bandpanic" => scen_native::bandpanic(&cfg, &mut out),
                 "buildcase" => scen_native::buildcase(&cfg, &mut out),
                 "statsfit" => scen_native::statsfit(&cfg, &mut out),
                 "fitmap" => scen_native::fitmap(&cfg, &mut out),
